@@ -105,19 +105,23 @@ Fixpoint run_prefix (k : kind) (pre : list N) (pos : N) (r : N) (its : items) : 
   | [] => (r, its, pos)
   | i :: rest => let '(r', s) := apply_op k i pos its in run_prefix k rest (pos + 1) r' s
   end.
-(** digests (in reverse order) of the history [pre] and of all its extensions by <= rem ops *)
-Definition enum_from (k : kind) (pre : list N) (rem : nat) : list N :=
+(** digests of the history [pre] and of all its extensions by <= rem ops, LAST FIRST *)
+Definition enum_from_rev (k : kind) (pre : list N) (rem : nat) : list N :=
   let '(r, s, pos) := run_prefix k pre 0 0 [] in
-  rev (enum k rem pos s [digest r k s]).
+  enum k rem pos s [digest r k s].
+Definition enum_from (k : kind) (pre : list N) (rem : nat) : list N :=
+  rev_append (enum_from_rev k pre rem) [].
 
-(** three characters per digest, base 64, characters '0'.. *)
-Definition enc3 (d : N) : list ascii :=
-  [ascii_of_N (48 + (d / 4096) mod 64); ascii_of_N (48 + (d / 64) mod 64); ascii_of_N (48 + d mod 64)].
-Definition enc_all (l : list N) : list ascii := flat_map enc3 l.
+(** three characters per digest, base 64, characters '0'..; tail recursive, takes the digests
+    last first and returns the characters in history order *)
+Definition enc_rev (l : list N) : list ascii :=
+  fold_left (fun out d =>
+               ascii_of_N (48 + (d / 4096) mod 64) :: ascii_of_N (48 + (d / 64) mod 64)
+                          :: ascii_of_N (48 + d mod 64) :: out) l [].
 
 (** one shard: positions (character index, model, expected) where the digests differ *)
 Definition diff_shard (k : kind) (pre : list N) (rem : nat) (expected : list string) :=
-  diff_aux 0 (enc_all (enum_from k pre rem)) (list_ascii_of_string (cat expected)) [].
+  diff_aux 0 (enc_rev (enum_from_rev k pre rem)) (list_ascii_of_string (cat expected)) [].
 Definition diff_shards (k : kind) (l : list (list N * nat * list string)) :=
   map (fun x => let '(pre, rem, e) := x in diff_shard k pre rem e) l.
 
